@@ -200,6 +200,10 @@ type subject struct {
 
 var defaultMeta = structs.DefaultEnterpriseMetaInDefaultPartition()
 
+func stateSubject(svc string) stream.Subject {
+	return state.EventSubjectService{Key: svc, EnterpriseMeta: *defaultMeta}
+}
+
 func healthSubject(svc, peer string, connect bool) *subject {
 	sreq := structs.ServiceSpecificRequest{Datacenter: "dc1", ServiceName: svc, Connect: connect, PeerName: peer}
 	name, class := "health:"+svc, "health"
